@@ -64,6 +64,8 @@ type cacheMap = map[string]interface{}
 
 //@ func PatchConfig
 //@   props C29
+//@   ensures [raw-stays-raw] forall p *json.RawMessage :: {iface(p)} config == iface(p) && result1 == nil ==> tag(result0) == tag(config)
+//@   ensures [numbers-exact] !called("json.Unmarshal")
 //@   ensures [leaf-write-succeeds] forall m cacheMap :: {iface(m)} config == iface(m) && m != nil && pos + 1 == len(subkeys) ==> result1 == nil
 //@   ensures [leaf-write-same-map] forall m cacheMap :: {iface(m)} config == iface(m) && m != nil && pos + 1 == len(subkeys) ==> result0 == config
 //@   ensures [leaf-write-has] forall m cacheMap :: {iface(m)} config == iface(m) && m != nil && pos + 1 == len(subkeys) ==> has(m, subkeys[pos])
@@ -84,6 +86,7 @@ type cacheMap = map[string]interface{}
 // is deleted from the map that holds it
 //@ func purgeNulls
 //@   props C29
+//@   ensures [numbers-exact] !called("json.Unmarshal")
 //@   ensures [nil-is-purged] config == nil ==> result == nil
 //@   ensures [nil-raw-is-purged] forall p *json.RawMessage :: {iface(p)} config == iface(p) && p == nil ==> result == nil
 //@   loop 0: step [nil-raw-option-removed] v == nil ==> !has(config, k)
